@@ -735,6 +735,8 @@ func runC11(c *Ctx) {
 
 	// ---------------------------------------------------------------- C11.11
 	runC11Presized(c)
+	// ---------------------------------------------------------------- C11.12
+	runC11NewFieldKind(c)
 
 	// ---------------------------------------------------------------- C11.10
 	c.Rule("C11.10", "a declared content length is non-negative or the -1 sentinel", 1)
@@ -1153,4 +1155,61 @@ func allInstrs(fn *ssa.Function) []ssa.Instruction {
 	var out []ssa.Instruction
 	ForEachInstr(fn, func(in ssa.Instruction) { out = append(out, in) })
 	return out
+}
+
+// runC11NewFieldKind: C11.12 (defect D28).  protoreflect.Message.NewField(fd) returns a List for
+// a repeated field and a Map for a map field; calling Value.Message() on it panics.  A value that
+// comes from NewField may reach .Message() only if it was made where the field is known not to be
+// a list (a dominating fd.IsList()==false / Cardinality()!=Repeated test), or is an element made
+// from that list.
+func runC11NewFieldKind(c *Ctx) {
+	p := c.P
+	c.Rule("C11.12", "Value.Message() is applied to a NewField result only where the field is known to be singular", 0)
+	n := 0
+	singularKnown := func(call ssa.CallInstruction) bool {
+		for _, f := range p.FactsAtInter(call.Block()) {
+			ci, ok := f.Cond.(*ssa.Call)
+			if ok && ci.Call.IsInvoke() && (N(ci.Call.Method) == "IsList" || N(ci.Call.Method) == "IsMap") && !f.Truth {
+				return true
+			}
+			if cmp, ok := f.AsCmp(); ok {
+				if cc, ok := cmp.X.(*ssa.Call); ok && cc.Call.IsInvoke() && N(cc.Call.Method) == "Cardinality" {
+					return true
+				}
+			}
+		}
+		return false
+	}
+	for _, fn := range p.Funcs {
+		if !p.inScope(fn) {
+			continue
+		}
+		for _, call := range Calls(fn) {
+			if !IsCallTo(call, "(google.golang.org/protobuf/reflect/protoreflect.Value).Message") {
+				continue
+			}
+			var fromNewField []ssa.CallInstruction
+			for _, l := range p.OriginsDeep(call.Common().Args[0]) {
+				if l.Kind == "call" && l.Call.Common().IsInvoke() && N(l.Call.Common().Method) == "NewField" {
+					fromNewField = append(fromNewField, l.Call)
+				}
+			}
+			if len(fromNewField) == 0 {
+				continue
+			}
+			n++
+			ok := true
+			for _, nf := range fromNewField {
+				if !singularKnown(nf) && !singularKnown(call) {
+					ok = false
+				}
+			}
+			c.Check(ok, "C11.12", FuncName(fn), "newfield-message-needs-singular", call.Pos(),
+				"the NewField result used as a message was made where the field is known to be singular",
+				"Value.Message() is called on the result of NewField(field) although the field may be repeated (NewField then returns the list): a request naming such a field - e.g. a repeated well-known-type query parameter - panics")
+		}
+	}
+	if n == 0 {
+		c.Trivial("C11.12", "*", "newfield-message-needs-singular", token.NoPos, "no NewField result is used as a message")
+	}
 }
